@@ -1097,3 +1097,77 @@ func init() {
 	registry["C01"].Meta.Rules["C01.14"] = txt + " (shared with C12.12)"
 	registry["C01"].Rules = append(registry["C01"].Rules, func(c *Ctx, r *Result) { layoutExclusiveRule(c, r, "C01.14") })
 }
+
+// ---- a fixed-size field is filled completely (C14.12) ----
+//
+// copy(arr[:], src[:k]) into a local array of N bytes that is then used as a value (a 7-byte heap ID in a name index record):
+// with k < N the last bytes stay zero, with k > N the tail of the source is dropped. Where both lengths are constants they are
+// equal.
+func arrayFillRule(c *Ctx, r *Result, rule string, scope func(string) bool, floor int) {
+	n := 0
+	for _, fn := range c.LibFuncs() {
+		if scope != nil && !scope(c.Name(fn)) {
+			continue
+		}
+		k := 0
+		for _, site := range callsIn(fn) {
+			b, isB := site.Common().Value.(*ssa.Builtin)
+			if !isB || b.Name() != "copy" {
+				continue
+			}
+			constLen := func(v ssa.Value) (int64, bool) {
+				sl, ok := v.(*ssa.Slice)
+				if !ok {
+					return 0, false
+				}
+				pt, ok := sl.X.Type().Underlying().(*types.Pointer)
+				if !ok {
+					return 0, false
+				}
+				at, ok := pt.Elem().Underlying().(*types.Array)
+				if !ok {
+					return 0, false
+				}
+				lo, hi := int64(0), at.Len()
+				if sl.Low != nil {
+					v, ok := constInt(sl.Low)
+					if !ok {
+						return 0, false
+					}
+					lo = v
+				}
+				if sl.High != nil {
+					v, ok := constInt(sl.High)
+					if !ok {
+						return 0, false
+					}
+					hi = v
+				}
+				return hi - lo, true
+			}
+			d, ok1 := constLen(site.Common().Args[0])
+			s, ok2 := constLen(site.Common().Args[1])
+			if !ok1 || !ok2 {
+				continue
+			}
+			// a whole smaller array copied into a wider scratch array is a zero extension; the rule is about a window of
+			// the source chosen by the programmer
+			if sl := site.Common().Args[1].(*ssa.Slice); sl.High == nil && s < d {
+				continue
+			}
+			n++
+			k++
+			r.Check(d == s, rule, fmt.Sprintf("%s#fixed-size-copy-%d", c.Name(fn), k), c.InstrPos(site.(ssa.Instruction)), fmt.Sprintf("destination of %d bytes, source of %d bytes", d, s))
+		}
+	}
+	if n < floor {
+		r.Shortfall(c, rule, fmt.Sprintf("%s: only %d copies between fixed-size arrays found (expected >= %d)", rule, n, floor))
+	}
+}
+
+func init() {
+	registry["C14"].Meta.Rules["C14.12"] = "a fixed-size field is filled completely: where the name index copies between windows of fixed-size arrays (the 7-byte heap ID of a record from the 8 bytes of the integer), destination and source have the same constant length - a shorter source leaves the last byte zero, and the record then points at another heap object or at none"
+	registry["C14"].Rules = append(registry["C14"].Rules, func(c *Ctx, r *Result) {
+		arrayFillRule(c, r, "C14.12", func(n string) bool { return strings.HasPrefix(n, "structures.") }, 2)
+	})
+}
